@@ -123,7 +123,13 @@ func propC04(r *kernel.Run) {
 		}
 		nodeOpts = append(nodeOpts, nodeenrollment.WithActivationToken(token))
 	}
-	creds, err := types.NewNodeCredentials(nodeW.Ctx, nodeW.Storage, nodeW.Opts(nodeOpts...)...)
+	createOpts := nodeOpts
+	if flow == "token" && tp.Draw(2) == 0 {
+		// the token may also be supplied only when fetching (credentials created earlier with their own nonce), as protocol.Dial does
+		createOpts = nil
+		r.Count("cfg.token_supplied_at_fetch_only", 1)
+	}
+	creds, err := types.NewNodeCredentials(nodeW.Ctx, nodeW.Storage, nodeW.Opts(createOpts...)...)
 	if err != nil {
 		fail("enroll", "new-credentials-failed", "%v", err)
 	}
